@@ -62,7 +62,7 @@ theorem C02_eligible_gets_one_copy (s : St) (msg : Msg) (key : TellKey) (r : Mod
     rcases he with h | h <;> simp [h]
   unfold tellIf
   simp only [hm, hst, if_true, hp, hroom]
-  refine ⟨{ msg with sub := key.subOf }, { md with pipe := some (q ++ [{ msg with sub := key.subOf }]) }, ?_, rfl, rfl, rfl, rfl, rfl, rfl, rfl, rfl⟩
+  refine ⟨{ msg with sub := key.subOf, rcpt := some r }, { md with pipe := some (q ++ [{ msg with sub := key.subOf, rcpt := some r }]) }, ?_, rfl, rfl, rfl, rfl, rfl, rfl, rfl, rfl⟩
   unfold St.updMod
   simp [hr, hm, hlt, hget]
 
